@@ -56,6 +56,10 @@ impl FromStr for Decimal {
         if -exponent > MAX_N_FRAC_DIGITS as isize {
             return Result::Err(ParseDecimalError::FracDigitLimitExceeded);
         }
+        if coeff == 0 && exponent > 0 {
+            // zero times any power of ten is zero
+            return Ok(Self::ZERO);
+        }
         if exponent > 38 {
             // 10 ^ 39 > int128::MAX
             return Result::Err(ParseDecimalError::InternalOverflow);
